@@ -2663,3 +2663,14 @@ def fromiter(iterable, dtype, count=-1):
     if not items:
         return zeros(0, dtype=dt)
     return concatenate([asarray(x).reshape(1) for x in items]).astype(dt)
+
+
+class iinfo:
+    """machine limits of an integer type"""
+    def __init__(self, t):
+        dt = globals()["dtype"](t.dtype if hasattr(t, "dtype") and not isinstance(t, type) else t)
+        if dt.kind not in "iu":
+            raise ValueError("Invalid integer data type %r." % dt.kind)
+        self.dtype, self.bits, self.kind = dt, dt.bits, dt.kind
+        self.min = 0 if dt.kind == "u" else -(1 << (dt.bits - 1))
+        self.max = (1 << dt.bits) - 1 if dt.kind == "u" else (1 << (dt.bits - 1)) - 1
